@@ -76,6 +76,7 @@ def signature(d, e, expand=True, neg=False):
 
 
 from ..rules import (GWF, EXC, mpt, need_func, raise_class,  # noqa: E402
+                     substitute_locals,
                      parent_map)
 from . import common  # noqa: E402
 
@@ -295,7 +296,9 @@ def settings_validation(prog, an, rep):
         if n.kind != 'test' or not isinstance(n.ast, ast.Compare) or \
                 len(n.ast.ops) != 1:
             continue
-        e = n.ast
+        e = substitute_locals(f, n.ast)
+        if not (isinstance(e, ast.Compare) and len(e.ops) == 1):
+            continue
         keys = lambda x: sorted({s.value for s in ast.walk(x)  # noqa: E731
                                  if isinstance(s, ast.Constant) and
                                  isinstance(s.value, str)})
@@ -324,7 +327,7 @@ def settings_validation(prog, an, rep):
             # truthiness guards the raise
             pm = parent_map(f.node)
             forced = False
-            holder = pm.get(e)
+            holder = pm.get(n.ast)
             while holder is not None and not isinstance(holder, ast.If):
                 holder = pm.get(holder)
             stored = set()
